@@ -786,12 +786,13 @@ class Server(gpp.NodeParameter, metaclass=MetaServer):
     def _set_client_id(self, value):
         if not isinstance(value, int):
             raise TypeError(f'value is not an int: {type(value)}')
-        if value < 0 or value >= self.options.max_logins:
+        if value < 0 or value >= self._status_watcher.max_logins:
             # Supernova ignores max_logins option
             # and doesn't return max_logins info.
             _logger.error(
-                f'id ({value}) outside options.max_logins '
-                f'({s.options.max_logins}), current id is {self._client_id}')
+                f'id ({value}) outside max_logins '
+                f'({self._status_watcher.max_logins}), '
+                f'current id is {self._client_id}')
             if self.options.program == plf.Platform.SUPERNOVA_CMD:
                 _logger.info(
                     'NOTE: suepernova servers ignore options.max_logins')
